@@ -652,6 +652,40 @@ impl Prop for C02 {
         let nvars = rng.range(3, 6) as u32;
         let mut fresh = 10;
         let mut toks: Vec<String> = vec!["plan".into()];
+        if i % 50 == 7 {
+            // enough rows for the chunked / parallel paths of the executor (a bind join splits its left input into
+            // chunks of >= 64 rows per thread): a chain or star of 2-3 triple patterns over 90-260 quads
+            stats.hit("large_intermediate_results");
+            let db = gen_big_db(rng, &mut u);
+            let p0 = Term::Const(rng.pick(&u.preds).clone());
+            let p1 = Term::Const(rng.pick(&u.preds).clone());
+            let mut tps = vec![(Term::Var(0), p0.clone(), Term::Var(1))];
+            match rng.below(3) {
+                0 => tps.push((Term::Var(1), p1, Term::Var(2))),
+                1 => tps.push((Term::Var(0), p1, Term::Var(2))),
+                _ => {
+                    tps.push((Term::Var(1), Term::Var(3), Term::Var(2)));
+                }
+            }
+            let mut elems = vec![Pat::Bgp(tps)];
+            if rng.chance(1, 3) {
+                elems.push(Pat::Filter(Cond::Cmp(1, "ne".into(), Opnd::Var(0))));
+            }
+            if rng.chance(1, 3) {
+                elems.push(Pat::Bgp(vec![(Term::Var(2), Term::Const(rng.pick(&u.preds).clone()), Term::Var(4))]));
+            }
+            let pat = Pat::Group(elems);
+            let joins = *rng.pick(&["keep", "allbind", "allbind", "rnd", "allhash", "allnl"]);
+            let st = *rng.pick(&["fresh", "stale", "empty"]);
+            let pool = *rng.pick(&[2usize, 3, 7, 16]);
+            stats.hit(&format!("large_pool_{}", pool));
+            toks.push("q".into());
+            toks.push(format!("{}:{}:{}:{}", joins, st, 0, pool));
+            t_db(&db, &mut toks);
+            t_view(&View { dflt: vec![None], named: u.graphs.clone() }, &mut toks);
+            t_pat(&pat, &mut toks);
+            return toks.join(" ");
+        }
         if i % 3 == 0 {
             stats.hit("explicit_physical_plan");
             let plan = gen_plan(rng, &u, nvars, 3, &mut fresh);
